@@ -4,9 +4,16 @@
 // small range (HLL in LIST/SET mode; CPC with n <= 3k/32, i.e. sparse): the estimate lies in the
 // collision-limited accuracy window around the true count (vf/c06_common.hpp); CPC: HIP and ICON confidence
 // functions of cpc_confidence.hpp are each ordered around their estimate; documented argument checks.
+// HLL union programs: raw items of every update overload fed directly to hll_union::update, mixed with sketch
+// operands of finer / equal / coarser lg_k in the orders sketch->raw, raw->sketch, sketch->raw->sketch, with and
+// without an estimate call between the steps; the true count is the number of distinct canonical byte strings
+// (vf/gen.hpp).  In HLL mode with lg_k >= 9 the true count must also lie within 8 published (non-HIP) standard
+// errors of the estimate (gross-error guard, false-alarm probability ~1e-15 per read-out).
 // Compiled with -fno-access-control (hll get_current_mode(), cpc get_hip_estimate()/get_icon_estimate()).
 #include "vf/core.hpp"
 #include "vf/c06_common.hpp"
+#include "vf/gen.hpp"
+#include <unordered_set>
 #include <hll.hpp>
 #include <cpc_sketch.hpp>
 #include <cpc_union.hpp>
@@ -30,23 +37,31 @@ struct Cfg { bool cpc; uint8_t lg_k; int type; uint64_t nmax; int parts; double 
 static std::string cfg_str(const Cfg& c, uint64_t n) { return "lg_k=" + std::to_string(c.lg_k) + " n=" + std::to_string(n); }
 
 // ---------------------------------------------------------------- HLL
-template<typename S> static void observe_hll(const S& s, uint64_t n, const char* fam, const Cfg& c, const char* what, uint8_t eff_lg_k) {
-  const Chain ch = read_chain(s);
+template<typename S> static Chain observe_hll(const S& s, uint64_t n, const char* fam, const Cfg& c, const char* what, uint8_t eff_lg_k) {
+  const Chain ch = read_chain_c(s);    // estimate, composite estimate and the six bounds in a random order, then again in a fixed order
   const hll_mode mode = s.get_current_mode();
   auto ctx = [&] { return std::string(what) + " " + cfg_str(c, n) + " mode=" + std::to_string(static_cast<int>(mode)); };
   check_chain_lazy(ch, fam, ctx);
   if (mode != HLL) {
     const Window w = small_range_window(n, K26);
     VF_CHECK(w.lo <= ch.est && ch.est <= w.hi, std::string(fam) + "|coupon-mode|estimate-outside-small-range-accuracy", ctx() + " window=[" + str(w.lo) + "," + str(w.hi) + "] " + ch.to_string());
-    VF_CHECK(s.get_composite_estimate() == ch.est, std::string(fam) + "|coupon-mode|composite-differs-from-estimate", ctx());
+    VF_CHECK(ch.comp == ch.est, std::string(fam) + "|coupon-mode|composite-differs-from-estimate", ctx());
     count(std::string("sk_") + fam + (mode == LIST ? "_list" : "_set"));
   } else {
     const uint64_t k = 1ULL << eff_lg_k;
     count(std::string("sk_") + fam + (n <= k ? "_hll_small" : (n <= 4 * k ? "_hll_transition" : "_hll_asymptotic")));
-    const double comp = s.get_composite_estimate();
+    const double comp = ch.comp;
     VF_CHECK(std::isfinite(comp) && comp >= 0, std::string(fam) + "|composite-estimate|not-finite-or-negative", ctx() + " composite=" + str(comp));
+    const uint8_t lg = s.get_lg_config_k();
+    if (lg >= 9 && n > 0) {
+      const double lo = ch.est / (1.0 + 8.0 * hll_sketch::get_rel_err(false, true, lg, 1)), hi = ch.est / (1.0 + 8.0 * hll_sketch::get_rel_err(true, true, lg, 1));
+      VF_CHECK(lo <= static_cast<double>(n) && static_cast<double>(n) <= hi, std::string(fam) + "|hll-mode|true-count-beyond-8-published-std-errors-of-estimate",
+               ctx() + " result_lg_k=" + std::to_string(lg) + " allowed=[" + str(lo) + "," + str(hi) + "] " + ch.to_string());
+      count("sk_hll_gross_error_checks");
+    }
   }
   sig(mix64(mix64(static_cast<uint64_t>(mode) + 16 * (reinterpret_cast<uintptr_t>(fam) & 0xff), eff_lg_k), static_cast<uint64_t>(ch.est * 64)));
+  return ch;
 }
 
 static void run_hll(const Cfg& c, Rng& r) {
@@ -75,15 +90,98 @@ static void run_hll(const Cfg& c, Rng& r) {
       next_union = std::max(next_union * 1.7, next_union + 1);
       hll_union u(c.lg_k);
       for (int j = 0; j < c.parts; ++j) u.update(parts[j]);
-      observe_hll(u, n, "hll_union", c, "union object", c.lg_k);
+      // the union object is read before or after get_result() (random); the first accessor after the merge is random
+      const bool result_first = order_next() & 1;
+      Chain uc;
+      if (!result_first) { uc = observe_hll(u, n, "hll_union", c, "union object", c.lg_k); if (u.get_current_mode() == HLL) count_first_after_merge(uc); }
       const hll_sketch res = u.get_result(TYPES[(c.type + n) % 3]);
-      observe_hll(res, n, "hll_union", c, "union result", c.lg_k);
+      const Chain rc = observe_hll(res, n, "hll_union", c, "union result", c.lg_k);
+      if (result_first) uc = observe_hll(u, n, "hll_union", c, "union object after get_result", c.lg_k);
+      VF_CHECK(same_chain(uc, rc), "hll_union|union-object-vs-result|estimate-or-bounds-differ", cfg_str(c, n) + " union: " + uc.to_string() + " result: " + rc.to_string());
       count("sk_union_checkpoints");
     }
   }
   for (uint8_t bad : {uint8_t(0), uint8_t(4)}) {
     VF_CHECK(throws([&] { main_sk.get_lower_bound(bad); }) && throws([&] { main_sk.get_upper_bound(bad); }), "hll|bounds|invalid-num-std-dev-does-not-throw", "num_std_dev=" + std::to_string(bad) + " n=" + std::to_string(c.nmax));
   }
+}
+
+// ---------------------------------------------------------------- HLL union programs with raw items
+static void run_hll_program(Rng& r, bool T) {
+  const bool big = r.chance(0.03);
+  const uint8_t L = static_cast<uint8_t>(big ? r.range(15, 18) : r.range(4, 14));
+  const int order = static_cast<int>(r.below(3));           // 0 sketch->raw, 1 raw->sketch, 2 sketch->raw->sketch
+  const bool est_between = r.coin();
+  const int fixed_kind = r.chance(0.5) ? -1 : static_cast<int>(r.below(V_NKINDS));
+  const uint64_t cap = T ? 300000 : 50000;
+  const double hi = static_cast<double>(std::min<uint64_t>(64ULL << L, cap));
+  const uint64_t base = r.next();
+  Cfg c; c.cpc = false; c.lg_k = L; c.type = 0; c.nmax = 0; c.parts = 0; c.overlap = 0; c.base = base; c.step = 0;
+  struct Step { bool sketch; uint8_t lg_k; int type; uint64_t cnt; };
+  std::vector<Step> steps;
+  const int nsteps = order == 2 ? 3 : 2;
+  std::string d;
+  for (int i = 0; i < nsteps; ++i) {
+    Step st;
+    st.sketch = (order == 0) ? (i == 0) : (order == 1 ? (i == 1) : (i != 1));
+    const int rel = static_cast<int>(r.below(3));             // finer / equal / coarser than the union's lg_max_k
+    st.lg_k = static_cast<uint8_t>(std::max<int>(4, std::min<int>(21, L + (rel == 0 ? static_cast<int>(r.range(1, 2)) : (rel == 1 ? 0 : -static_cast<int>(r.range(1, 2)))))));
+    st.type = static_cast<int>(r.below(3));
+    st.cnt = 1 + static_cast<uint64_t>(std::exp(r.unit() * std::log(hi / nsteps)));
+    steps.push_back(st);
+    d += std::string(st.sketch ? " sketch(lg_k=" + std::to_string(st.lg_k) + "," + TNAME[st.type] + ",n=" : " raw(n=") + std::to_string(st.cnt) + ")";
+  }
+  describe("hll union program lg_max_k=" + std::to_string(L) + " steps:" + d + " estimate_between=" + std::to_string(est_between) + " raw_kind=" + std::to_string(fixed_kind) + " keybase=" + std::to_string(base));
+  hll_union u(L);
+  std::unordered_set<std::string> seen;     // canonical byte strings of every item offered so far (sketch operands and raw)
+  auto le8 = [](uint64_t v) { std::string b(8, '\0'); for (int i = 0; i < 8; ++i) b[i] = static_cast<char>(v >> (8 * i)); return b; };
+  uint64_t cursor = 0;                      // next fresh 64-bit key index
+  uint8_t min_lg = L;
+  for (size_t si = 0; si < steps.size(); ++si) {
+    const Step& st = steps[si];
+    if (st.sketch) {
+      hll_sketch sk(st.lg_k, TYPES[st.type]);
+      const uint64_t start = cursor - std::min<uint64_t>(cursor, st.cnt / 5);     // re-offers up to 20% of the latest keys
+      for (uint64_t i = 0; i < st.cnt; ++i) { const uint64_t key = bij(base + start + i); sk.update(key); seen.insert(le8(key)); }
+      cursor = std::max(cursor, start + st.cnt);
+      if (sk.get_current_mode() == HLL) min_lg = std::min(min_lg, st.lg_k);
+      if (r.coin()) u.update(sk); else u.update(std::move(sk));
+      count("sk_hll_program_sketch_steps");
+    } else {
+      for (uint64_t i = 0; i < st.cnt; ++i) {
+        if (cursor > 0 && r.chance(0.2)) {     // an item already offered (as a 64-bit key), through one of its equivalent overloads
+          const uint64_t key = bij(base + r.below(cursor));
+          if (r.coin()) u.update(key); else u.update(static_cast<int64_t>(key));
+          seen.insert(le8(key));
+        } else if (r.chance(0.5)) {             // fresh 64-bit key
+          const uint64_t key = bij(base + cursor++);
+          u.update(key); seen.insert(le8(key)); count("update_u64");
+        } else {                                 // any overload kind, incl. -0.0 / NaN / empty string / small integer domains
+          const Val v = gen_val(r, 1ULL << 40, fixed_kind);
+          apply_update(u, v);
+          if (!v.ignored()) seen.insert(v.canon_bytes());
+          count(std::string("update_") + kind_name(v.kind));
+        }
+      }
+      count("sk_hll_program_raw_steps");
+    }
+    if (est_between && si + 1 < steps.size()) {
+      const Chain bc = observe_hll(u, seen.size(), "hll_union_program", c, "union object between steps", L); count("sk_hll_program_intermediate_estimates");
+      if (st.sketch && u.get_current_mode() == HLL) count_first_after_merge(bc);
+    }
+  }
+  const uint64_t n = seen.size();
+  const bool result_first = order_next() & 1;
+  Chain uc;
+  if (!result_first) { uc = observe_hll(u, n, "hll_union_program", c, "union object at end", L); if (steps.back().sketch && u.get_current_mode() == HLL) count_first_after_merge(uc); }
+  const hll_sketch res = u.get_result(TYPES[r.below(3)]);
+  const Chain rc = observe_hll(res, n, "hll_union_program", c, "union result at end", L);
+  if (result_first) uc = observe_hll(u, n, "hll_union_program", c, "union object at end, after get_result", L);
+  VF_CHECK(same_chain(uc, rc), "hll_union_program|union-object-vs-result|estimate-or-bounds-differ", "union: " + uc.to_string() + " result: " + rc.to_string());
+  VF_CHECK(res.get_lg_config_k() <= L, "hll_union_program|result-lg_k-above-lg_max_k", "result lg_k=" + std::to_string(res.get_lg_config_k()));
+  count(std::string("sk_hll_program_order") + std::to_string(order) + (est_between ? "_with_estimate" : "_without_estimate"));
+  if (steps[0].sketch && steps[0].lg_k > L && min_lg <= L && u.get_current_mode() == HLL) count("sk_hll_program_first_operand_downsampled");
+  (void)min_lg;
 }
 
 // ---------------------------------------------------------------- CPC
@@ -139,6 +237,7 @@ static void run_cpc(const Cfg& c, Rng& r) {
       const cpc_sketch res = u.get_result();
       // a union of sketches with a larger lg_k keeps its own lg_k; the result can only be as fine as the union
       observe_cpc(res, n, "cpc_union", c, "union result", res.get_lg_k());
+      { const cpc_sketch res2 = u.get_result(); VF_CHECK(same_chain(read_chain(res2), read_chain(res)), "cpc_union|get_result|second-result-differs-from-first", cfg_str(c, n)); }
       VF_CHECK(res.get_lg_k() <= c.lg_k, "cpc_union|result-lg_k-above-union-lg_k", cfg_str(c, n));
       count("sk_union_checkpoints");
     }
@@ -150,7 +249,9 @@ static void run_cpc(const Cfg& c, Rng& r) {
 
 void run_case(uint64_t idx, Rng& r) {
   (void)idx;
+  seed_order(r);
   const bool T = G().thorough();
+  if (r.chance(0.2)) { run_hll_program(r, T); if (want_sample()) sample("{\"config\":" + jstr(G().cur_desc) + "}"); return; }
   Cfg c;
   c.cpc = r.coin();
   const bool big = r.chance(T ? 0.04 : 0.02);     // big lg_k: long LIST/SET resp. sparse phase, error constants of the lg_k > 12 / > 14 branches
